@@ -15,12 +15,15 @@ import random
 from . import batch, core
 
 SETUP = ("mkdir d{i}; cd d{i}\nprintf '@old1\\n' > f1; printf '@old2\\n' > f2; printf 'line1\\nline2\\n' > in\n"
-         "wf() { echo \"@o.$1 out\"; echo \"@e.$1 err\" >&2; }\n")
+         "wf() { echo \"@o.$1 out\"; echo \"@e.$1 err\" >&2; }\n"
+         # unquoted targets: one word after splitting and globbing is a file name; none or several are an error and nothing is opened
+         "mw='f1 f2'; gl='f*'; em=; one='f 3'; g1='f[3]'\n")
 TAIL = "\necho \"@r.{i} $?\"\nfdprobe --names --max 12 -t P.{i}\ndumpf {i} f1 f2 f3 in"
 
 REDIRS = ["< in", "< f1", "< missing", "> f1", "> f3", ">> f1", ">| f1", "<> f2", "> nodir/x", "> .", "2> f2", "2>> f2", "2>&1", "1>&2", ">&2",
           "3> f3", "3>&1", "3>&2", "1>&3", "2>&-", ">&-", "<&-", "3>&-", "4<&0", "5< in", "&> f3", "&>> f1", ">& f3", "<<< 'word w'",
-          "3<<< hs", "9> f3", "7>&9", "0< f2", "1> f3", "2>&1 > f3", "6<> f1", "6>&1 1>&2 2>&6"]
+          "3<<< hs", "9> f3", "7>&9", "0< f2", "1> f3", "2>&1 > f3", "6<> f1", "6>&1 1>&2 2>&6",
+          "> $mw", ">> $mw", "< $mw", "> $gl", "> $em", "2> $mw", "3> $gl"]
 
 CARRIERS = {
     "ext": "wr a.{i} {R}",
@@ -214,7 +217,7 @@ def cluster(c, b, h):
     rl = " ".join(c["rlist"] + (c["rlist2"] or []))
     car = c["carrier"]
     aborted = b is None or not any(t == "@r" for t, _ in b)
-    failing = any(x in rl for x in ("missing", "nodir/x", "> .", "1>&3", "7>&9"))
+    failing = any(x in rl for x in ("missing", "nodir/x", "> .", "1>&3", "7>&9", "$mw", "$gl", "$em"))
     if dup_of_closed(c["rlist"]) or (c["rlist2"] and dup_of_closed(c["rlist2"])):
         failing = True       # duplicating a descriptor that an earlier redirection of the same list closed
     if c["noclobber"]:
